@@ -10,27 +10,27 @@
 (*  Calib    well-known encodings (ABI prologue/epilogue idioms, the         *)
 (*           architecture book's examples) decode as published.              *)
 EXTENDS PPC
-VARIABLES p, x
-Init == p \in 0..63 /\ x \in 0..1023
-Next == UNCHANGED <<p, x>>
+VARIABLES vp, vx
+Init == vp \in 0..63 /\ vx \in 0..1023
+Next == UNCHANGED <<vp, vx>>
 Claimants(pp, xx) == {i \in 1..Len(ExtSeq) : ExtSeq[i].p = pp /\ ClaimsX(ExtSeq[i], xx)}
 PrimAt(pp) == {i \in 1..Len(PrimSeq) : PrimSeq[i].p = pp}
-Func == /\ (p \in ExtPrims => Cardinality(Claimants(p, x)) <= 1)
-        /\ Cardinality(PrimAt(p)) <= 1
-        /\ (p \in ExtPrims => PrimAt(p) = {})
-        /\ (p \notin ExtPrims => {i \in 1..Len(ExtSeq) : ExtSeq[i].p = p} = {})
+Func == /\ (vp \in ExtPrims => Cardinality(Claimants(vp, vx)) <= 1)
+        /\ Cardinality(PrimAt(vp)) <= 1
+        /\ (vp \in ExtPrims => PrimAt(vp) = {})
+        /\ (vp \notin ExtPrims => {i \in 1..Len(ExtSeq) : ExtSeq[i].p = vp} = {})
 Total == \A b \in {0, 1} :
-           LET w == MkWord(p, 0, 0, 0, x, b)
+           LET w == MkWord(vp, 0, 0, 0, vx, b)
                d == Decode(w)
-               claimed == IF p \in ExtPrims THEN Claimants(p, x) # {} ELSE PrimAt(p) # {}
+               claimed == IF vp \in ExtPrims THEN Claimants(vp, vx) # {} ELSE PrimAt(vp) # {}
            IN /\ IsWord(w)
-              /\ d.ok = (claimed /\ (p = 17 => B30(w) = 1))
+              /\ d.ok = (claimed /\ (vp = 17 => B30(w) = 1))
               /\ (d.ok => d.mn # "" /\ d.mn \in Shown(d, w) \cup {d.base \o "l", d.base \o "la", d.base \o "a", d.base})
               /\ (~d.ok => ~d.valid)
 FieldsInv == \A f \in {0, 1, 21, 31} : \A b \in {0, 1} :
-            LET w == MkWord(p, f, 31 - f, (f * 7) % 32, x, b) IN
-            /\ Prim(w) = p /\ F1(w) = f /\ F2(w) = 31 - f /\ F3(w) = (f * 7) % 32 /\ XO10(w) = x /\ B31(w) = b
-            /\ XO9(w) = x % 512 /\ B21(w) = x \div 512 /\ XO5(w) = x % 32 /\ F4(w) = x \div 32 /\ B30(w) = x % 2
+            LET w == MkWord(vp, f, 31 - f, (f * 7) % 32, vx, b) IN
+            /\ Prim(w) = vp /\ F1(w) = f /\ F2(w) = 31 - f /\ F3(w) = (f * 7) % 32 /\ XO10(w) = vx /\ B31(w) = b
+            /\ XO9(w) = vx % 512 /\ B21(w) = vx \div 512 /\ XO5(w) = vx % 32 /\ F4(w) = vx \div 32 /\ B30(w) = vx % 2
 Inv == Func /\ Total /\ FieldsInv
 
 \* one mnemonic = one row; sizes as counted in appendix A of the 32-bit PEM (plus the 3 extra rows)
